@@ -8,7 +8,7 @@ if [ -z "${VERIF_REPO:-}" ]; then
   if [ -n "${VP_RUN_REPO:-}" ]; then export VERIF_REPO=$VP_RUN_REPO; else
     export VERIF_REPO=/tmp/matrix-repo-$$; git -C /repo worktree add --detach $VERIF_REPO HEAD -q; MADE=1; fi
 fi
-cd $HERE
+cd $HERE; export VERIF_GOCACHE=${VERIF_GOCACHE:-/verif/.cache/go-build}
 : > $OUT
 for g in $GLOBS; do for d in /verif/seeded/$g; do
   [ -f $d/patch.diff ] || continue
